@@ -10,11 +10,12 @@ import DnsProofs.C08Plain
 namespace Dns.Instance
 open Dns Dns.MU Dns.Len Dns.C08M Dns.C02M
 
-/-- not covered: the gateway of IPSECKEY / AMTRELAY (its host name enters the packer's map but not Len's set; Len counts
-    `len(host) + 1`), and SVCB / HTTPS (`len()` asks each parameter value for its length) -/
-def lenUncovered : List String := ["AMTRELAY", "HTTPS", "IPSECKEY", "SVCB"]
+/-- record types the line-up does not cover: none on the pinned tree (the gateway of IPSECKEY / AMTRELAY, whose host name
+    enters the packer's map but not Len's set, and the SVCB / HTTPS parameter lists, where `len()` asks each value for
+    its length, are covered by `name_uncounted` and `svcb_est`) -/
+def lenUncovered : List String := []
 
-/-- **every other type** (77 of 81, RFC 3597 and OPT included) -/
+/-- **every type** (81 of 81: all generated bodies, RFC 3597 and OPT included) -/
 theorem len_bodies_aligned :
     Gen.unpackCodecs.all (fun p => lenUncovered.contains p.1 || (alignedKind p.1 && zeroFieldsOK p.1)) = true := by
   decide
